@@ -7,11 +7,42 @@ package main
 // compared like all other closedloop walks (op "cstep"), the whole walk as op "trace".
 
 import (
+	"context"
 	"fmt"
 	"strings"
+
+	kruisev1alpha1 "github.com/openkruise/kruise-api/apps/v1alpha1"
+	"github.com/openkruise/rollouts/pkg/util"
+	"k8s.io/apimachinery/pkg/util/intstr"
 )
 
 func cllW(x int) *int { return &x }
+
+// rollback: the user reverts the pod template to the revision the stable pods run (the CloneSet's current revision) and the
+// CloneSet controller has observed it: admitted and held back by the workload webhook (partition 100 %, in-progress
+// annotation), update revision = current revision, the pods of the abandoned revision are no longer counted as updated.
+func (s *clSim) rollback() {
+	ctx := context.TODO()
+	cs := &kruisev1alpha1.CloneSet{}
+	if err := s.cli.Client.Get(ctx, clWlKey, cs); err != nil {
+		return
+	}
+	if cs.Status.UpdateRevision == cs.Status.CurrentRevision {
+		return
+	}
+	cs.Generation++
+	cs.Annotations[util.InRolloutProgressingAnnotation] = `{"rolloutName":"r"}`
+	p := intstr.FromString("100%")
+	cs.Spec.UpdateStrategy.Partition = &p
+	cs.Spec.UpdateStrategy.Paused = false
+	cs.Status.UpdateRevision = cs.Status.CurrentRevision
+	cs.Status.UpdatedReplicas = *cs.Spec.Replicas - cs.Status.UpdatedReplicas
+	cs.Status.UpdatedReadyReplicas = cs.Status.UpdatedReplicas
+	cs.Status.ObservedGeneration = cs.Generation
+	_ = s.cli.Client.Update(ctx, cs)
+	_ = s.cli.Client.Status().Update(ctx, cs)
+	s.trace = append(s.trace, "rollback")
+}
 
 // cllTrafficScenarios: fixed traffic scenarios plus n generated ones (all with traffic routing)
 func cllTrafficScenarios(c *Ctx, n int) []clScenario {
@@ -87,7 +118,15 @@ func cllNetMoment(cs cllCS, when string) bool {
 }
 
 var cllMoments = []string{"routed", "routed", "routed-next-step", "svc-written", "pinned-before-br", "cleanup-routed", "cleanup-unpinned-routed", "cleanup-svc-left"}
-var cllTrEvents = []string{"release:v1", "release:v1", "release:v3", "release:v3", "delete", "delete", "crash", "fault-ro:0", "fault-ro:1", "fault-ro:2", "fault-br:0", "crash,release:v3", "crash,release:v1", "crash,delete"}
+var cllTrEvents = []string{"rollback", "rollback", "rollback,ro,delete", "release:v1", "release:v3", "release:v3", "delete", "delete", "crash", "fault-ro:0", "fault-ro:1", "fault-ro:2", "fault-br:0", "crash,release:v3", "crash,release:v1", "crash,delete"}
+
+// cllTrCombos: (network moment, event) pairs run deterministically on the first traffic scenarios
+var cllTrCombos = [][2]string{
+	{"routed", "rollback"}, {"routed", "release:v3"}, {"routed", "delete"},
+	{"routed", "release:v3,env,fault-ro:1"}, {"routed", "rollback,ro,fault-ro:1"}, {"routed", "rollback,ro,ro,tick,fault-ro:1"},
+	{"routed-next-step", "rollback"}, {"routed-next-step", "release:v3,env,fault-ro:1"}, {"routed", "release:v1"},
+	{"svc-written", "crash"}, {"cleanup-routed", "fault-ro:1"}, {"cleanup-unpinned-routed", "crash,delete"},
+}
 
 // cllTrafficEvent: fair rounds until the network moment `when` is reached (checked before every label), then the event,
 // then — optionally after a few reconciles of one controller only — fair rounds to the end
